@@ -100,3 +100,102 @@ def route (m : Mechs) (b : Backend) (r : Req) : Outcome :=
   else .notFound
 
 end Rdpgw.Http
+
+/-!
+## From `Authorization` header values to `Req`
+
+`r.Header.Get("Authorization")` is the first value (empty when the header is absent);
+`r.BasicAuth()` is `net/http.parseBasicAuth` on it: the six-octet prefix `Basic ` compared
+case-insensitively (ASCII), `base64.StdEncoding.DecodeString` of the remainder, `strings.Cut` at
+the first colon.  `HeadersRegexp("Authorization", W)` matches when some value contains `W`.
+-/
+namespace Rdpgw.Http
+
+open Rdpgw
+
+def asciiLower (b : UInt8) : UInt8 := if 65 ≤ b ∧ b ≤ 90 then b + 32 else b
+
+/-- `ascii.EqualFold` -/
+def eqFold (a b : Bytes) : Bool := a.map asciiLower == b.map asciiLower
+
+/-- `strings.Contains` -/
+def containsSub (needle : Bytes) : Bytes → Bool
+  | [] => needle.isEmpty
+  | c :: s => needle.isPrefixOf (c :: s) || containsSub needle s
+
+/-- `strings.Cut(s, ":")` -/
+def cutColon : Bytes → Option (Bytes × Bytes)
+  | [] => none
+  | c :: s => if c = 58 then some ([], s) else (cutColon s).map fun (u, p) => (c :: u, p)
+
+/-- value of one character of the standard base64 alphabet -/
+def b64val (c : UInt8) : Option Nat :=
+  if 65 ≤ c ∧ c ≤ 90 then some (c.toNat - 65)
+  else if 97 ≤ c ∧ c ≤ 122 then some (c.toNat - 97 + 26)
+  else if 48 ≤ c ∧ c ≤ 57 then some (c.toNat - 48 + 52)
+  else if c = 43 then some 62
+  else if c = 47 then some 63
+  else none
+
+/-- `base64.StdEncoding.DecodeString` on a header value (no CR/LF can occur in one): whole quanta of
+    four characters, padding `=`/`==` only in the last quantum, non-zero trailing bits tolerated -/
+def b64decode : Bytes → Option Bytes
+  | [] => some []
+  | a :: b :: c :: d :: rest =>
+    if rest = [] ∧ d = 61 then
+      if c = 61 then do
+        let x ← b64val a; let y ← b64val b
+        some [UInt8.ofNat ((x * 64 + y) / 16)]
+      else do
+        let x ← b64val a; let y ← b64val b; let z ← b64val c
+        let n := (x * 64 + y) * 64 + z
+        some [UInt8.ofNat (n / 1024), UInt8.ofNat (n / 4 % 256)]
+    else do
+      let x ← b64val a; let y ← b64val b; let z ← b64val c; let w ← b64val d
+      let n := ((x * 64 + y) * 64 + z) * 64 + w
+      let r ← b64decode rest
+      some (UInt8.ofNat (n / 65536) :: UInt8.ofNat (n / 256 % 256) :: UInt8.ofNat (n % 256) :: r)
+  | _ => none
+
+/-- the standard alphabet -/
+def b64char (s : Nat) : UInt8 :=
+  if s < 26 then UInt8.ofNat (65 + s)
+  else if s < 52 then UInt8.ofNat (97 + (s - 26))
+  else if s < 62 then UInt8.ofNat (48 + (s - 52))
+  else if s = 62 then 43 else 47
+
+/-- `base64.StdEncoding.EncodeToString` (what a client sends) -/
+def b64encode : Bytes → Bytes
+  | [] => []
+  | [a] => [b64char (a.toNat / 4), b64char (a.toNat % 4 * 16), 61, 61]
+  | [a, b] => [b64char (a.toNat / 4), b64char (a.toNat % 4 * 16 + b.toNat / 16), b64char (b.toNat % 16 * 4), 61]
+  | a :: b :: c :: rest =>
+    b64char (a.toNat / 4) :: b64char (a.toNat % 4 * 16 + b.toNat / 16) ::
+      b64char (b.toNat % 16 * 4 + c.toNat / 64) :: b64char (c.toNat % 64) :: b64encode rest
+
+def kwBasic : Bytes := [66, 97, 115, 105, 99]                                  -- "Basic"
+def kwNTLM : Bytes := [78, 84, 76, 77]                                         -- "NTLM"
+def kwNegotiate : Bytes := [78, 101, 103, 111, 116, 105, 97, 116, 101]         -- "Negotiate"
+
+/-- the first value, as the handlers parse it -/
+def credOf (first : Bytes) : Cred :=
+  if first = [] then .none
+  else if first.length ≥ 6 ∧ eqFold (first.take 6) (kwBasic ++ [32]) then
+    match b64decode (first.drop 6) with
+    | some c =>
+      match cutColon c with
+      | some (u, p) => .basic u p
+      | none => .other
+    | none => .other
+  else if (kwNTLM ++ [32]).isPrefixOf first then .ntlm (first.drop 5)
+  else if (kwNegotiate ++ [32]).isPrefixOf first then .negotiate (first.drop 10)
+  else .other
+
+/-- the request as the route table and the handlers see it, from the header's values in order -/
+def classify (values : List Bytes) : Req :=
+  { cred := credOf (values.headD []),
+    hasNTLM := values.any (containsSub kwNTLM),
+    hasNegotiate := values.any (containsSub kwNegotiate),
+    hasBasic := values.any (containsSub kwBasic) }
+
+end Rdpgw.Http
